@@ -9,6 +9,7 @@ pub mod c05;
 pub mod c06;
 pub mod c06b;
 pub mod c12s;
+pub mod c17s;
 pub mod c19;
 pub mod enc;
 pub mod gad;
@@ -35,6 +36,7 @@ fn main() {
             "C06" => c06::replay(&ctx, &sub, &case),
             "C19" => c19::replay(&ctx, &sub, &case),
             "C11" | "C12" => c12s::replay(&ctx, &sub, &case),
+            "C17" => c17s::replay(&ctx, &sub, &case),
             _ => {
                 eprintln!("harness error: pzv-scheme cannot replay property {prop}");
                 2
@@ -76,6 +78,10 @@ fn main() {
         "C11" => {
             c12s::run_all_c11(&ctx);
             ctx.finish(c12s::RULE_C11, &["core-level part of C11 (the HAL registry is served by pzv-hal); the noise-free core operations (add, sub, rotate, shifts, normalise, copy) run on registers that hold earlier results in the C02 programs"], &[("cross_radix", 500)])
+        }
+        "C17" => {
+            c17s::run_all(&ctx);
+            ctx.finish(c17s::RULE, &["AddressSanitizer instruments the harness and the poulpy crates (std is not rebuilt); assembly kernels are covered by the HAL-level guard-margin pass only"], &[])
         }
         "C12" => {
             c12s::run_all(&ctx);
